@@ -135,7 +135,7 @@ class PVLGrammar:
     _H_frag = r"(?P<hour>0\d|1\d|2[0-3])"  # 00 to 23
     _M_frag = r"(?P<minute>[0-5]\d)"  # 00 to 59
     _f_frag = r"(\.(?P<microsecond>\d+))"  # 1 or more digits
-    _Y_frag = r"(?P<year>\d{3}[1-9])"  # 0001 to 9999
+    _Y_frag = r"(?P<year>(?!0000)\d{4})"  # 0001 to 9999
     _m_frag = r"(?P<month>0[1-9]|1[0-2])"  # 01 to 12
     _d_frag = r"(?P<day>0[1-9]|[12]\d|3[01])"  # 01 to 31
     _Ymd_frag = fr"{_Y_frag}-{_m_frag}-{_d_frag}"
